@@ -137,6 +137,37 @@ class C14(Property):
     def strategy(self, tier):
         return specs(tier)
 
+    # very long runs (frame counts beyond key widths, attribute and buffer sizes): a fixed sweep on a tiny grid
+    def exhaustive_jobs(self, tier):
+        return [{"domain": "long-runs", "nframes": n} for n in ([130, 1100, 8400] if tier == "quick" else [130, 1100, 8400, 17000, 70000])]
+
+    def expand(self, job):
+        n = job["nframes"]
+        frames = [{"kind": "binary" if k % 3 else "constant", "seed": k % 7, "scale": 1.0, "offset": 0.0, "density": 0.4} for k in range(n)]
+        yield {
+            "mode": "direct",
+            "grid": {"family": "cart", "origin": [0.0], "shape": [5], "spacing": [1.0], "periodic": [True]},
+            "frames": frames,
+            "times": [0.25 * k for k in range(n)],
+            "time_kind": "increasing",
+            "settings": {"threshold": 0.5, "minimal_radius": 0, "refine": False, "refine_args": None, "modes": 0},
+            "source": None,
+            "existing": 0,
+            "with_file": True,
+            "storage": "memory",
+        }
+        yield {
+            "mode": "lengthscale",
+            "grid": {"family": "cart", "origin": [0.0], "shape": [8], "spacing": [1.0], "periodic": [True]},
+            "frames": frames[: min(n, 9000)],
+            "times": [0.25 * k for k in range(min(n, 9000))],
+            "time_kind": "increasing",
+            "method": "structure_factor_mean",
+            "source": None,
+            "with_file": True,
+            "verbose": False,
+        }
+
     def check(self, spec, ctx: Ctx):
         getattr(self, "_" + spec["mode"])(spec, ctx)
 
@@ -197,7 +228,7 @@ class C14(Property):
         fields = [ScalarField(grid, make_field(grid, f)) for f in spec["frames"]]
         times = spec["times"]
         src = spec["source"]
-        ctx.cls("direct", spec["grid"]["family"], f"source:{src}", f"refine:{s['refine']}", f"modes:{s['modes']}", f"frames:{len(fields)}")
+        ctx.cls("direct", spec["grid"]["family"], f"source:{src}", f"refine:{s['refine']}", f"modes:{s['modes']}", f"frames:{len(fields)}" if len(fields) <= 12 else "frames>" + str(max(t for t in (12, 100, 1000, 8192, 16384, 65536) if len(fields) > t)))
         existing = None
         prefix_model = []
         via_tc = spec.get("route") == "timecourse"
@@ -290,7 +321,7 @@ class C14(Property):
         times = spec["times"]
         method = spec["method"]
         src = spec["source"]
-        ctx.cls("lengthscale", spec["grid"]["family"], method, f"frames:{len(fields)}")
+        ctx.cls("lengthscale", spec["grid"]["family"], method, f"frames:{len(fields)}" if len(fields) <= 12 else "frames>" + str(max(t for t in (12, 100, 1000, 8192) if len(fields) > t)))
         tmp = _scratch() if spec["with_file"] else None
         try:
             path = os.path.join(tmp, "ls.json") if tmp else None
